@@ -1572,7 +1572,74 @@ def _copy_class(fn, d):
     return cls
 
 
-def check_div(ctx, fn, ft, rule="R-DIV", report=True):
+def zero_writable_fields(fx):
+    """struct fields that some non-test function sets to the constant 0 (in a struct literal or by a store):
+    {"path::Struct::field": writer fn id}"""
+    zero = {}
+    for fid in fx.fn_ids():
+        if "::tests::" in fid:
+            continue
+        for k in range(fx.count(fid)):
+            fn = Fn(fx.raw(fid, k))
+            for loc, st in fn.iter_locs():
+                if st[0] != "a":
+                    continue
+                if st[2][0] == "agg" and isinstance(st[2][1], str) and st[2][1].startswith("adt:") and len(st[2]) > 3 and st[2][3]:
+                    for name, o in zip(st[2][3], st[2][2]):
+                        kk = op_const(o)
+                        if kk is not None and kk[0] == 0:
+                            zero.setdefault(st[2][1][4:].rsplit("::", 1)[0] + "::" + name, fid)
+                elif len(st[1]) > 1 and st[2][0] == "use":
+                    kk = op_const(st[2][1])
+                    if kk is not None and kk[0] == 0:
+                        for e in st[1][1:]:
+                            if isinstance(e, str) and e.startswith("."):
+                                zero.setdefault(e[1:], fid)
+    # a field copied from a zero-writable field (`Decoder { total: encoder.total }`) is zero-writable too
+    edges = []
+    for fid in fx.fn_ids():
+        if "::tests::" in fid:
+            continue
+        for k in range(fx.count(fid)):
+            fn = Fn(fx.raw(fid, k))
+            for loc, st in fn.iter_locs():
+                if st[0] == "a" and st[2][0] == "agg" and isinstance(st[2][1], str) and st[2][1].startswith("adt:") and len(st[2]) > 3 and st[2][3]:
+                    for name, o in zip(st[2][3], st[2][2]):
+                        l = op_local(o)
+                        if l is None:
+                            continue
+                        for x in _copy_class(fn, l):
+                            for d in fn.defs(x):
+                                if d[1] == "assign" and d[2][2][0] == "use":
+                                    pp = op_place(d[2][2][1])
+                                    if pp and len(pp) > 1:
+                                        for e in pp[1:]:
+                                            if isinstance(e, str) and e.startswith(".") and "::" in e:
+                                                edges.append((st[2][1][4:].rsplit("::", 1)[0] + "::" + name, e[1:], fid))
+    changed = True
+    while changed:
+        changed = False
+        for dst, src, fid in edges:
+            if src in zero and dst not in zero:
+                zero[dst] = zero[src]
+                changed = True
+    return zero
+
+
+def _zero_field_of(fn, d, zero_fields):
+    locs, sites = fn.backslice([d], max_nodes=30)
+    for loc, kind, pl in sites:
+        if kind == "assign":
+            for o in rv_operands(pl[2]):
+                pp = op_place(o)
+                if pp:
+                    for e in pp[1:]:
+                        if isinstance(e, str) and e.startswith(".") and e[1:] in zero_fields:
+                            return e[1:]
+    return None
+
+
+def check_div(ctx, fn, ft, rule="R-DIV", report=True, zero_fields=None):
     """a division/remainder whose divisor comes from untrusted data must be preceded by a test that sends the
     zero case elsewhere (or the divisor is built with max(_, k>=1) / NonZero)"""
     n = 0
@@ -1594,10 +1661,22 @@ def check_div(ctx, fn, ft, rule="R-DIV", report=True):
             continue
         loc = (b, len(fn.stmts(b)))
         roots = ft.roots_at(loc, dop)
+        zfield = None
         if not roots:
-            continue
+            # not data-dependent on the input, but read from a field that a constructor can leave at 0
+            # (typically on an input-dependent branch: "empty table -> zeroed model")
+            zfield = _zero_field_of(fn, d, zero_fields) if zero_fields else None
+            if zfield is None:
+                continue
         n += 1
         cls = _copy_class(fn, d)
+        if zfield is not None:
+            # other reads of the same field (`if self.total == 0 { .. }` before `x % self.total`)
+            for loc2, st2 in fn.iter_locs():
+                if st2[0] == "a" and len(st2[1]) == 1 and st2[2][0] == "use":
+                    pp = op_place(st2[2][1])
+                    if pp and any(isinstance(e, str) and e == "." + zfield for e in pp[1:]):
+                        cls |= _copy_class(fn, st2[1][0])
         safe = None
         # clamp by construction
         for x in cls:
@@ -1637,10 +1716,96 @@ def check_div(ctx, fn, ft, rule="R-DIV", report=True):
         ok = safe is not None
         ctx.obligation(rule, fn.id, "%s by %s" % (t[3], fn.local_name(d)), ok,
                        sample={"fn": fn.id, "kind": t[3], "divisor": fn.local_name(d), "excluded_by": safe,
-                               "from": [ft.root_desc[r][0] for r in sorted(roots)][:2]})
+                               "from": [ft.root_desc[r][0] for r in sorted(roots)][:2] if roots else ["field " + zfield]})
+        if not ok and report and zfield is not None:
+            ctx.violation(rule, fn.id, "%s by field %s" % ("division" if t[3] == "DivisionByZero" else "remainder", zfield.rsplit("::", 1)[-1]),
+                          "the divisor is read from %s, which %s sets to 0, and no dominating test sends the zero case elsewhere: "
+                          "an input that selects that construction path panics the decoder instead of returning Err"
+                          % (zfield, zero_fields[zfield].rsplit("::", 2)[-2] + "::" + zero_fields[zfield].rsplit("::", 1)[-1]),
+                          fn.file, t[5] if len(t) > 5 else fn.line)
+            continue
         if not ok and report:
             src = ft.root_desc[sorted(roots)[0]][0]
             ctx.violation(rule, fn.id, "%s by untrusted %s" % ("division" if t[3] == "DivisionByZero" else "remainder", fn.local_name(d)),
                           "the divisor %s comes from untrusted input (%s) and no dominating test sends the zero case "
                           "elsewhere: a crafted 0 panics instead of returning Err" % (fn.local_name(d), src), fn.file, t[5] if len(t) > 5 else fn.line)
+    return n
+
+
+# ------------------------------------------------------------------ R-RECURSE
+def recursion_cycles(ctx, res, rule="R-RECURSE"):
+    """no unbounded recursion on the parsing paths: the call graph of the parser closure (statically resolved callees)
+    has no cycle, except where the recursive call is dominated by a comparison on an integer parameter and passes on
+    a value computed from that parameter (an explicit depth budget). The nesting of a self-describing frame is chosen
+    by the input; a decoder that re-enters itself per level turns a deep chain into a stack overflow (abort, not Err)."""
+    import sys
+    nodes = set(res)
+    g = {f: set() for f in nodes}
+    for f, (fn, ft) in res.items():
+        for b, c in fn.calls():
+            if c["f"] in nodes:
+                g[f].add(c["f"])
+    sys.setrecursionlimit(max(10000, sys.getrecursionlimit()))
+    idx, low, st, on, comps, counter = {}, {}, [], set(), [], [0]
+
+    def sc(v):
+        idx[v] = low[v] = counter[0]
+        counter[0] += 1
+        st.append(v)
+        on.add(v)
+        for w in g[v]:
+            if w not in idx:
+                sc(w)
+                low[v] = min(low[v], low[w])
+            elif w in on:
+                low[v] = min(low[v], idx[w])
+        if low[v] == idx[v]:
+            comp = []
+            while True:
+                w = st.pop()
+                on.discard(w)
+                comp.append(w)
+                if w == v:
+                    break
+            if len(comp) > 1 or v in g[v]:
+                comps.append(comp)
+    for v in sorted(nodes):
+        if v not in idx:
+            sc(v)
+
+    def budgeted(fn, b, c):
+        ints = [i for i in range(1, fn.nargs + 1) if fn.ty(i) in ("usize", "u32", "u64", "u16", "u8", "i32")]
+        for p in ints:
+            cls = _copy_class(fn, p)
+            guarded = False
+            for (sb, i), s in fn.iter_locs():
+                if s[0] == "a" and s[2][0] == "bin" and s[2][1] in ("Lt", "Le", "Gt", "Ge", "Eq", "Ne") and len(s[1]) == 1 and \
+                        (op_local(s[2][2]) in cls or op_local(s[2][3]) in cls):
+                    for wb in fn.blocks():
+                        wt = fn.term(wb)
+                        if wt[0] == "sw" and op_local(wt[1]) == s[1][0] and fn.dominates(wb, b) and wb != b:
+                            guarded = True
+            if guarded:
+                fw = fn.forward_locals([p]) | {p}
+                if any(op_local(a) in fw and op_local(a) not in cls for a in c["a"] if op_local(a) is not None):
+                    return True
+        return False
+    n = 0
+    for comp in comps:
+        cs = set(comp)
+        for f in sorted(comp):
+            fn, ft = res[f]
+            for b, c in fn.calls():
+                if c["f"] in cs:
+                    n += 1
+                    ok = budgeted(fn, b, c)
+                    ctx.obligation(rule, f, "recursive call carries a depth budget", ok,
+                                   sample={"fn": f, "callee": c["f"], "line": c["ln"], "cycle": sorted(comp)[:4]})
+                    if not ok:
+                        ctx.violation(rule, f, "unbounded recursion through %s" % c["f"].rsplit("::", 1)[-1],
+                                      "%s calls %s (line %d), which can reach %s again; nothing bounds the depth, so the nesting level "
+                                      "is chosen by the input and a deep chain overflows the stack"
+                                      % (f.rsplit("::", 1)[-1], c["f"].rsplit("::", 1)[-1], c["ln"], f.rsplit("::", 1)[-1]), fn.file, c["ln"])
+    ctx.instance(rule + ".closure_fns", len(nodes))
+    ctx.instance(rule + ".recursive_calls", n)
     return n
